@@ -72,4 +72,19 @@ set_option maxRecDepth 1000000 in
 /-- every line INDENTED (first line included): the common indentation of the following lines is removed -/
 theorem h5_common_indent : descTextOK 0 "  a\n  b" = false ∧ ¬ Survives "  a\n  b" := by decide
 
+/-! ### finding H12: lines longer than the wrap width -/
+
+/-- a 121-character line with one break opportunity -/
+def longLine : String := String.ofList (List.replicate 60 'w' ++ [' '] ++ List.replicate 60 'v')
+
+set_option maxRecDepth 1000000 in
+/-- the width clause of `descTextOK` (`lines.all (l.length ≤ 120 - indent)`) is what keeps finding H12 — `wrapped_lines`
+    breaking over-long lines at word boundaries — out of the text-level theorem: a 121-character line is outside the
+    predicate, a 120-character line is inside. (That the 121-character description is really changed is measured on the
+    implementation in every run — `corr/C12.py: run_long_descriptions`, signature `H12:description-rewrapped:*`; its
+    kernel evaluation through the lexer model takes minutes and is not repeated here.) -/
+theorem h12_width_boundary :
+    longLine.length = 121 ∧ descTextOK 0 longLine = false ∧ descTextOK 0 (String.ofList (List.replicate 120 'w')) = true := by
+  decide
+
 end PyGql.Props.C12
